@@ -271,3 +271,190 @@ class PathInterp:
             out.absorb(fin)
         else:
             out.absorb(inner)
+
+
+# ---------------------------------------------------------------------------------------------------------------------
+# Forward expression propagation along paths ("what is stored where, in terms of the function's inputs")
+# ---------------------------------------------------------------------------------------------------------------------
+@dataclass(frozen=True)
+class Sym:
+    env: tuple = ()      # ((name | "self.attr", expression text in terms of the values at function entry), ..)
+    conds: tuple = ()    # ((test text, polarity), ..) decided on this path, in order
+    events: tuple = ()   # (("set", target, text) | ("call", text), ..) in execution order
+
+    def get(self, k: str, default=None):
+        for n, v in self.env:
+            if n == k:
+                return v
+        return default
+
+    def set(self, k: str, v: str) -> "Sym":
+        return Sym(tuple((n, x) for n, x in self.env if n != k) + ((k, v),), self.conds, self.events)
+
+    def event(self, *e) -> "Sym":
+        return Sym(self.env, self.conds, self.events + (tuple(e),))
+
+    def cond(self, t: str, pol: bool) -> "Sym":
+        return Sym(self.env, self.conds + ((t, pol),), self.events)
+
+
+class _SymSub(ast.NodeTransformer):
+    def __init__(self, st: Sym):
+        self.st = st
+        self.bound: set[str] = set()
+
+    def _scoped(self, node, names):
+        old = set(self.bound)
+        self.bound |= names
+        out = self.generic_visit(node)
+        self.bound = old
+        return out
+
+    def visit_ListComp(self, n):
+        return self._scoped(n, {x.id for g in n.generators for x in ast.walk(g.target) if isinstance(x, ast.Name)})
+
+    visit_SetComp = visit_DictComp = visit_GeneratorExp = visit_ListComp
+
+    def visit_Lambda(self, n):
+        return self._scoped(n, {a.arg for a in n.args.args + n.args.kwonlyargs + n.args.posonlyargs})
+
+    def visit_NamedExpr(self, n):
+        # the value of `(x := e)` is e
+        return self.visit(n.value)
+
+    def visit_Name(self, n):
+        if isinstance(n.ctx, ast.Load) and n.id not in self.bound:
+            v = self.st.get(n.id)
+            if v is not None:
+                return ast.parse(v, mode="eval").body
+        return n
+
+    def visit_Attribute(self, n):
+        # attributes of self are state, not staging: they are never substituted (a read after a store means the new value)
+        if isinstance(n.value, ast.Name) and n.value.id == "self":
+            return n
+        return self.generic_visit(n)
+
+
+class SymInterp(PathInterp):
+    """Each path carries the expressions (as normalised text over the entry values) bound to locals and self attributes, the
+    branch decisions taken and the sequence of attribute stores / statement-level calls.  Locals are substituted away, so two
+    functions that differ only in how they name or stage intermediate values produce the same path summaries."""
+
+    loop_unroll = 1
+
+    def text(self, e: ast.AST, st: Sym) -> str:
+        import copy as _copy
+
+        return ast.unparse(_SymSub(st).visit(_copy.deepcopy(e)))
+
+    def _walrus(self, e: ast.AST, st: Sym) -> Sym:
+        for n in ast.walk(e):
+            if isinstance(n, ast.NamedExpr) and isinstance(n.target, ast.Name):
+                st = st.set(n.target.id, self.text(n.value, st))
+        return st
+
+    def assign(self, target: ast.AST, value_text: str, st: Sym, value_node: ast.AST | None = None) -> Sym:
+        if isinstance(target, ast.Name):
+            return st.set(target.id, value_text)
+        if isinstance(target, ast.Attribute) and isinstance(target.value, ast.Name) and target.value.id == "self":
+            k = f"self.{target.attr}"
+            return st.set(k, value_text).event("set", k, value_text)
+        if isinstance(target, (ast.Tuple, ast.List)) and isinstance(value_node, (ast.Tuple, ast.List)) and len(target.elts) == len(value_node.elts):
+            texts = [self.text(v, st) for v in value_node.elts]
+            for t, v in zip(target.elts, texts):
+                st = self.assign(t, v, st)
+            return st
+        if isinstance(target, (ast.Tuple, ast.List)):
+            for i, t in enumerate(target.elts):
+                st = self.assign(t, f"({value_text})[{i}]", st)
+            return st
+        # subscript / foreign attribute store: an event, no binding
+        return st.event("store", self.text(target, st), value_text)
+
+    def simple(self, stmt, st: Sym):
+        if isinstance(stmt, ast.Assign):
+            st = self._walrus(stmt.value, st)
+            vt = self.text(stmt.value, st)
+            for t in stmt.targets:
+                st = self.assign(t, vt, st, stmt.value)
+            yield ("normal", st)
+        elif isinstance(stmt, ast.AnnAssign) and stmt.value is not None:
+            st = self._walrus(stmt.value, st)
+            yield ("normal", self.assign(stmt.target, self.text(stmt.value, st), st, stmt.value))
+        elif isinstance(stmt, ast.AugAssign):
+            op = {ast.Add: "+", ast.Sub: "-", ast.Mult: "*", ast.Div: "/", ast.BitOr: "|", ast.BitAnd: "&"}.get(type(stmt.op), "?")
+            cur = st.get(stmt.target.id, stmt.target.id) if isinstance(stmt.target, ast.Name) else self.text(stmt.target, st)
+            simple = cur.replace(".", "").replace("_", "").isalnum()
+            yield ("normal", self.assign(stmt.target, f"{cur if simple else '(' + cur + ')'} {op} {self.text(stmt.value, st)}", st))
+        elif isinstance(stmt, ast.Expr):
+            st = self._walrus(stmt.value, st)
+            if isinstance(stmt.value, ast.Call):
+                st = st.event("call", self.text(stmt.value, st))
+            yield ("normal", st)
+        elif isinstance(stmt, ast.Return):
+            if stmt.value is not None:
+                st = self._walrus(stmt.value, st)
+                st = st.event("return", self.text(stmt.value, st))
+            yield ("return", st)
+        elif isinstance(stmt, ast.Raise):
+            yield ("raise", st.event("raise", self.text(stmt.exc, st) if stmt.exc is not None else ""), self.raise_name(stmt))
+        else:
+            yield ("normal", st)
+
+    def cond(self, test, st: Sym):
+        st = self._walrus(test, st)
+        pol = True
+        t = test
+        while isinstance(t, ast.UnaryOp) and isinstance(t.op, ast.Not):
+            pol, t = not pol, t.operand
+        txt = self.text(t, st)
+        # decided earlier on this path?
+        for c, p in st.conds:
+            if c == txt:
+                return ([st], []) if p == pol else ([], [st])
+        return [st.cond(txt, pol)], [st.cond(txt, not pol)]
+
+    def bind_loop(self, node, st: Sym, i: int):
+        if isinstance(node, ast.For):
+            st = self.assign(node.target, f"ITEM({i}, {self.text(node.iter, st)})", st)
+        return st
+
+
+def _sym_match(self: SymInterp, s: ast.Match, st: Sym) -> Outcome:
+    """match as an isinstance chain: class patterns decide `isinstance(subject, Cls)`, keyword sub-patterns bind
+    `subject.attr`, `case _ as e` binds the subject; a case is entered only if the earlier class tests failed."""
+    out = Outcome()
+    subj = self.text(s.subject, st)
+    cur = st
+    exhaustive = False
+    for case in s.cases:
+        p = case.pattern
+        if isinstance(p, ast.MatchClass) and not p.patterns and case.guard is None:
+            test = f"isinstance({subj}, {ast.unparse(p.cls)})"
+            inside = cur.cond(test, True)
+            for name, sub in zip(p.kwd_attrs, p.kwd_patterns):
+                if isinstance(sub, ast.MatchAs) and sub.pattern is None and sub.name:
+                    inside = inside.set(sub.name, f"{subj}.{name}" if subj.isidentifier() or "." in subj and " " not in subj else f"({subj}).{name}")
+            out.absorb(self.block(case.body, [inside]))
+            cur = cur.cond(test, False)
+        elif isinstance(p, ast.MatchAs) and case.guard is None and (p.pattern is None or (isinstance(p.pattern, ast.MatchAs) and p.pattern.pattern is None and p.pattern.name is None)):
+            inside = cur.set(p.name, subj) if p.name else cur
+            out.absorb(self.block(case.body, [inside]))
+            exhaustive = True
+            break
+        else:
+            # other patterns: entered with no extra knowledge
+            out.absorb(self.block(case.body, [cur]))
+    if not exhaustive:
+        out.normal.append(cur)
+    return out
+
+
+def _sym_stmt(self: SymInterp, s: ast.stmt, st: Sym) -> Outcome:
+    if isinstance(s, ast.Match):
+        return _sym_match(self, s, st)
+    return PathInterp.stmt(self, s, st)
+
+
+SymInterp.stmt = _sym_stmt  # type: ignore[method-assign]
